@@ -158,17 +158,19 @@ func ghost_emitted(eb *extension.AsyncEventBroker[event.MessageMetadata]) vcSeq[
 
 // Ghost call log of a Manager: how often each operation was requested, the mailbox / id of the most
 // recent request, and what the most recent GetMessage / SourceReader returned.
-func ghost_nGetMsg(m Manager) int      { panic("ghost") }
-func ghost_nGetMeta(m Manager) int     { panic("ghost") }
-func ghost_nMarkSeen(m Manager) int    { panic("ghost") }
-func ghost_nPurge(m Manager) int       { panic("ghost") }
-func ghost_nRemove(m Manager) int      { panic("ghost") }
-func ghost_nSource(m Manager) int      { panic("ghost") }
-func ghost_argBox(m Manager) string    { panic("ghost") }
-func ghost_argID(m Manager) string     { panic("ghost") }
-func ghost_lastGot(m Manager) *Message { panic("ghost") }
-func ghost_lastErr(m Manager) error    { panic("ghost") }
-func ghost_lastName(m Manager) string  { panic("ghost") }
+func ghost_nlisted(s storage.Store) int               { panic("ghost") }
+func ghost_listedBoxes(s storage.Store) vcSeq[string] { panic("ghost") }
+func ghost_nGetMsg(m Manager) int                     { panic("ghost") }
+func ghost_nGetMeta(m Manager) int                    { panic("ghost") }
+func ghost_nMarkSeen(m Manager) int                   { panic("ghost") }
+func ghost_nPurge(m Manager) int                      { panic("ghost") }
+func ghost_nRemove(m Manager) int                     { panic("ghost") }
+func ghost_nSource(m Manager) int                     { panic("ghost") }
+func ghost_argBox(m Manager) string                   { panic("ghost") }
+func ghost_argID(m Manager) string                    { panic("ghost") }
+func ghost_lastGot(m Manager) *Message                { panic("ghost") }
+func ghost_lastErr(m Manager) error                   { panic("ghost") }
+func ghost_lastName(m Manager) string                 { panic("ghost") }
 
 func Ghost_nGetMsg(m Manager) int      { return ghost_nGetMsg(m) }
 func Ghost_nGetMeta(m Manager) int     { return ghost_nGetMeta(m) }
@@ -254,6 +256,8 @@ func Ghost_lastName(m Manager) string  { return ghost_lastName(m) }
 
 //@ func (*StoreManager).GetMetadata
 //@   requires s.Store != nil
+//@   modifies ghost_nlisted(s.Store), ghost_listedBoxes(s.Store)
+//@   ensures[listsThatMailbox C14] storage.Ghost_nlisted(s.Store) == old(storage.Ghost_nlisted(s.Store)) + 1 && storage.Ghost_listedAt(s.Store, old(storage.Ghost_nlisted(s.Store))) == mailbox
 //@   ensures ret1 == nil ==> forall k int :: { ret0[k] } 0 <= k && k < len(ret0) ==> ret0[k] != nil
 //@   loop 1: invariant 0 <= ridx && ridx <= len(messages) && len(metas) == len(messages) && vcFresh(metas)
 //@   loop 1: invariant forall k int :: { metas[k] } 0 <= k && k < ridx ==> metas[k] != nil && vcFresh(metas[k])
